@@ -29,8 +29,9 @@ META = {
                  "under every completion order of their futures on a virtual-time loop",
     "level_text": "Programs from a bounded grammar (log, yield of future/list/dict/None/moment/nested coroutine of either "
                   "flavour, try/except/finally around yields, loops, return, raise, context-variable read/write) are printed "
-                  "as @gen.coroutine and as async def, and both are executed on fresh futures under the same resolution "
-                  "script for every completion order and already-done prefix; outcome and per-coroutine side-effect logs "
+                  "as @gen.coroutine and as async def, and both are executed on fresh futures (failing, or succeeding with an "
+                  "int or with an odd value: exception instance/class, falsy value, container, generator, awaitable-looking "
+                  "object) under the same resolution script for every completion order and already-done prefix; outcome and per-coroutine side-effect logs "
                   "must be equal, and the caller's context variable must be visible.",
     "level_note": "The native form under asyncio is the reference. Trusts the two-way printer (translation table in DESIGN "
                   "§4 C37; `raise gen.Return` is only printed outside try blocks because it is an Exception in the decorated "
@@ -39,7 +40,9 @@ META = {
     "design_ref": "DESIGN.md §4 C37",
     "engine": "vloop",
 }
-RULE = ("cases are (program AST, nested-coroutine flavour, future outcomes, completion order, number already done); programs "
+RULE = ("cases are (program AST, nested-coroutine flavour, future outcomes [exception | int result | result value drawn from "
+        "exception instances/classes, falsy values, containers, generator and awaitable-looking objects], completion order, "
+        "number already done); programs "
         "are drawn from the grammar with <= 9 statements, nesting <= 3, <= 4 futures and <= 2 nested coroutines (plus an "
         "exhaustive enumeration of all 1..3-statement bodies over a 10-statement alphabet); every program is run under all "
         "completion orders x already-done prefixes (sampled above 3 futures); non-trivial = the program reaches >= 2 yield "
@@ -49,7 +52,8 @@ ASSUMPTIONS = ["printer emits equivalent programs for the two forms", "single-th
                "awaited futures finish with a result or an exception (no cancellation)",
                "cross-coroutine interleaving is not compared"]
 REQUIRED_COUNTERS = ["oracle_evals", "programs", "runs_with_pending_future_at_yield", "exceptions_thrown_into_coroutine",
-                     "cv_checks", "nested_coroutine_runs", "list_or_dict_yields"]
+                     "cv_checks", "nested_coroutine_runs", "list_or_dict_yields", "exception_instance_received_as_value",
+                     "odd_result_value_runs"]
 
 CV = contextvars.ContextVar("vf_c37", default="unset")
 
@@ -65,9 +69,68 @@ class E2(Exception):
 EXC = {"E1": E1, "E2": E2, "KeyError": KeyError, "ValueError": ValueError}
 
 
+class Inert:
+    """A result value that looks like a generator / awaitable.  It is only ever a *value*: nobody may drive it."""
+
+    def __init__(self):
+        self.touched = []
+
+    def _t(self, what, *a):
+        self.touched.append(what)
+        raise AssertionError("a future's result value was driven as a coroutine: " + what)
+
+    def send(self, v):
+        self._t("send")
+
+    def throw(self, *a):
+        self._t("throw")
+
+    def close(self):
+        self.touched.append("close")
+
+    def __iter__(self):
+        return self
+
+    def __next__(self):
+        self._t("__next__")
+
+    def __await__(self):
+        self._t("__await__")
+
+
+def _a_generator():
+    yield 1
+
+
+# Result values a future may *succeed* with (outcome kind "v").  An awaited future that succeeded hands its value to
+# the coroutine whatever the value is: exception instances and classes, falsy values, containers, generator-like and
+# awaitable-looking objects are all just values of `x = yield fut` / `x = await fut`.
+VALUES = {
+    "exc-E1": lambda a: E1(a), "exc-E2": lambda a: E2(a), "exc-KeyError": lambda a: KeyError(a),
+    "exc-Exception": lambda a: Exception(a), "exc-StopIteration": lambda a: StopIteration(a),
+    "exc-Return": lambda a: gen.Return(a), "exc-CancelledError": lambda a: asyncio.CancelledError(),
+    "exc-TimeoutError": lambda a: gen.TimeoutError(), "exc-BaseException": lambda a: BaseException(a),
+    "class-E1": lambda a: E1, "class-StopIteration": lambda a: StopIteration,
+    "none": lambda a: None, "false": lambda a: False, "zero": lambda a: 0, "emptystr": lambda a: "",
+    "emptytuple": lambda a: (), "tuple": lambda a: (a, "t"), "tuple-exc": lambda a: (E1(a), None),
+    "list": lambda a: [a, [a]], "emptylist": lambda a: [], "dict": lambda a: {"k": a}, "emptydict": lambda a: {},
+    "generator": lambda a: _a_generator(), "inert-coroutine-like": lambda a: Inert(),
+    "done-future": lambda a: _done_future(a), "moment": lambda a: gen.moment,
+}
+EXC_VALUES = [k for k in VALUES if k.startswith("exc-")]
+OTHER_VALUES = [k for k in VALUES if not k.startswith("exc-")]
+
+
+def _done_future(a):
+    f = Future()
+    f.set_result(a)
+    return f
+
+
 def EXHAUSTIVE(tier):
     return ("all bodies of 1..%d statements over {log, yield F0, yield F1, yield [F0,F1], yield None, try{yield F0}except E1, "
-            "try{yield F1}finally{log}, return v, raise E2, yield nested()} x future outcomes {result,E1}^2 x all orders x "
+            "try{yield F1}finally{log}, return v, raise E2, yield nested()} x future outcomes {result, E1 raised, E1 instance "
+            "as the result value}^2 x all orders x "
             "already-done prefixes (random programs are sampled, not exhaustive)" % (3 if tier == "quick" else 4))
 
 
@@ -321,15 +384,33 @@ def gen_cases(spec):
                     continue
                 for order, npre in schedules(rng, used, lim):
                     yield (prog, "same", ((outs[0], "E1", 1), (outs[1], "E1", 2)), order, npre)
+            # a future that succeeds with an exception instance (of the type the bodies' handler names) as its value
+            for outs in (("v", "r"), ("r", "v"), ("v", "v"), ("v", "e"), ("e", "v")):
+                if spec["maxlen"] > 3 and outs != ("v", "v"):
+                    continue
+                for order, npre in schedules(rng, used, lim):
+                    yield (prog, "same", tuple((o, "exc-E1" if o == "v" else "E1", j + 1) for j, o in enumerate(outs)),
+                           order, npre)
     else:
         for _ in range(spec["n"]):
             nf = rng.randint(1, 4)
             prog = gen_program(rng, nf, rng.choice([0, 0, 1, 1, 2]))
             used = futures_used(prog)
-            outs = tuple((rng.choice("rrre"), rng.choice(["E1", "E2", "KeyError"]), rng.randrange(10)) for _ in range(nf))
+            outs = tuple(gen_outcome(rng) for _ in range(nf))
             flav = rng.choice(["same", "same", "gen", "nat"])
             for order, npre in schedules(rng, used, 8 if spec["tier"] == "quick" else 12):
                 yield (prog, flav, outs, order, npre)
+
+
+def gen_outcome(rng):
+    r = rng.random()
+    if r < 0.55:
+        return ("r", "E1", rng.randrange(10))
+    if r < 0.75:
+        return ("e", rng.choice(["E1", "E2", "KeyError"]), rng.randrange(10))
+    if r < 0.9:
+        return ("v", rng.choice(EXC_VALUES), rng.randrange(10))
+    return ("v", rng.choice(OTHER_VALUES), rng.randrange(10))
 
 
 def directed_cases():
@@ -342,6 +423,13 @@ def directed_cases():
              (("cvset", 3), ("y", ("list", (("call", 0), ("fut", 1)), False)), ("y", ("none", True)), ("cvget",)))
     yield (prog2, "nat", (("r", "E1", 0), ("r", "E1", 0)), (1, 0), 0)
     yield (prog2, "gen", (("r", "E1", 0), ("r", "E1", 0)), (0, 1), 2)
+    # futures that succeed with an exception instance / other odd objects as their value, inside and outside try
+    prog3 = ((), (("try", (("y", ("fut", 0)), ("y", ("fut", 1))), (("KeyError", (("ret", ("const", 1), False),)),),
+                   (("log", 2),)), ("y", ("list", (("fut", 0), ("fut", 1)), False)), ("ret", ("v",), True)))
+    for vk in ("exc-KeyError", "exc-StopIteration", "exc-Return", "exc-CancelledError", "class-E1", "none", "generator",
+               "inert-coroutine-like", "done-future", "tuple-exc"):
+        yield (prog3, "same", (("r", "E1", 0), ("v", vk, 7)), (0, 1), 0)
+        yield (prog3, "same", (("v", vk, 7), ("r", "E1", 0)), (1, 0), 1)
 
 
 # --------------------------------------------------------------------------
@@ -399,6 +487,12 @@ def _plain(v):
         return {str(k): _plain(x) for k, x in v.items()}
     if v is None or isinstance(v, (int, str, bool)):
         return v
+    if isinstance(v, BaseException):
+        return ["<exception instance as value>", type(v).__name__, _plain(v.args)]
+    if isinstance(v, type):
+        return "<class %s>" % v.__name__
+    if isinstance(v, Inert):
+        return ["<inert>", list(v.touched)]
     return type(v).__name__
 
 
@@ -413,6 +507,8 @@ async def run_form(case, form, lm):
         o = outs[i] if i < len(outs) else ("r", "E1", 0)
         if o[0] == "r":
             F[i].set_result(i * 11)
+        elif o[0] == "v":
+            F[i].set_result(VALUES[o[1]](o[2]))
         else:
             F[i].set_exception(EXC[o[1]](o[2]))
 
@@ -530,6 +626,11 @@ def run_case(case, ctx):
         ctx.count("nested_coroutine_runs")
     if "gen.multi" in src or "yield [" in src or "yield {" in src:
         ctx.count("list_or_dict_yields")
+    got_vals = [x[1] for _, L in lg for x in L if x[0] == "got"]
+    if any(isinstance(x, list) and x[:1] == ["<exception instance as value>"] for x in got_vals):
+        ctx.count("exception_instance_received_as_value")
+    if any(o[0] == "v" and not o[1].startswith("exc-") for o in case[2]):
+        ctx.count("odd_result_value_runs")
     nontriv = nyields >= 2 and eg.pending_at_yield >= 1
     ctx.mark(case, nontriv)
     if nontriv:
